@@ -325,3 +325,53 @@ def batch_calls(ctx, func, method):
         if m == method and base in wv:
             out.append(c)
     return out
+
+
+# ------------------------------------------------------------------------------------------------
+# propositional equivalence
+
+def bool_equiv(a, b, max_atoms=10):
+    """Are the boolean expressions a and b (ast nodes or source) the same function of their atoms?  and / or / not and the
+    negative comparison operators (!=, is not, not in) are interpreted; everything else is an atom, identified by its text.
+    Exact for the propositional structure; evaluation order / short-circuiting is not modelled."""
+    if isinstance(a, str):
+        a = ast.parse(a, mode='eval').body
+    if isinstance(b, str):
+        b = ast.parse(b, mode='eval').body
+    neg = {ast.NotEq: ast.Eq, ast.IsNot: ast.Is, ast.NotIn: ast.In}
+    atoms = []
+
+    def shape(e):
+        if isinstance(e, ast.BoolOp):
+            return ('and' if isinstance(e.op, ast.And) else 'or', [shape(v) for v in e.values])
+        if isinstance(e, ast.UnaryOp) and isinstance(e.op, ast.Not):
+            return ('not', [shape(e.operand)])
+        if isinstance(e, ast.Compare) and len(e.ops) == 1 and type(e.ops[0]) in neg:
+            pos = ast.Compare(left=e.left, ops=[neg[type(e.ops[0])]()], comparators=e.comparators)
+            return ('not', [shape(pos)])
+        if isinstance(e, ast.Constant) and isinstance(e.value, bool):
+            return ('const', e.value)
+        t = ast.unparse(e)
+        if t not in atoms:
+            atoms.append(t)
+        return ('atom', t)
+
+    def ev(s, env):
+        k, x = s
+        if k == 'atom':
+            return env[x]
+        if k == 'const':
+            return x
+        if k == 'not':
+            return not ev(x[0], env)
+        if k == 'and':
+            return all(ev(y, env) for y in x)
+        return any(ev(y, env) for y in x)
+    sa_, sb_ = shape(a), shape(b)
+    if len(atoms) > max_atoms:
+        return ast.unparse(a) == ast.unparse(b)
+    for m in range(1 << len(atoms)):
+        env = {t: bool(m >> i & 1) for i, t in enumerate(atoms)}
+        if ev(sa_, env) != ev(sb_, env):
+            return False
+    return True
